@@ -104,6 +104,19 @@ func runC18(c *Ctx) {
 	} else {
 		w := writes[0]
 		arg := sh(w.Common().Args[len(w.Common().Args)-1])
+		directWrite := false
+		_ = directWrite
+		if f := w.Common().StaticCallee(); f != nil && f.String() == "fmt.Fprint" && len(w.Common().Args) == 2 && strings.HasSuffix(sh(w.Common().Args[0]), "e.stdout") {
+			// the helper inlined: fmt.Fprint(e.stdout, text) — the text is the one element written, as data
+			if es := variadicElems(w.Common().Args[1]); len(es) == 1 {
+				v := es[0]
+				if mi, ok := v.(*ssa.MakeInterface); ok {
+					v = mi.X
+				}
+				arg = sh(v)
+				directWrite = true
+			}
+		}
 		if fmtCall != nil {
 			ex, isEx := w.Common().Args[len(w.Common().Args)-1].(*ssa.Extract)
 			var errV ssa.Value
@@ -135,6 +148,11 @@ func runC18(c *Ctx) {
 			texts = append(texts, rc.Text)
 		}
 		c.check(len(texts) == 1 && texts[0] == "fmt.Fprint(e.stdout, [str][:])", "R1", "print-helper", p.Pos(pr.Pos()), "Evaluator.print(str) = fmt.Fprint(e.stdout, str)", "Evaluator.print performs "+strings.Join(texts, " ; ")+"; the text must be written as data (Fprint), unchanged")
+	} else if len(writes) == 1 && func() bool {
+		f := writes[0].Common().StaticCallee()
+		return f != nil && f.String() == "fmt.Fprint" && strings.HasSuffix(sh(writes[0].Common().Args[0]), "e.stdout")
+	}() {
+		c.ok("R1", "print-helper", p.InstrPos(writes[0]), "no helper: printf writes with fmt.Fprint(e.stdout, text) itself")
 	} else {
 		c.undecided("R1", "print-helper", "", "anchor (*Evaluator).print not found")
 	}
